@@ -20,7 +20,14 @@ Pi(lvl, x) == lvl[x[1]].evs[x[2]].i
 Ev(lvl, x) == lvl[x[1]].evs[x[2]]
 PosLt(lvl, x, y) == Pm(lvl, x) < Pm(lvl, y) \/ (Pm(lvl, x) = Pm(lvl, y) /\ Pi(lvl, x) * Pn(lvl, y) < Pi(lvl, y) * Pn(lvl, x))
 
-P4800(lvl, x) == Pm(lvl, x) * 19200 + (19200 * Pi(lvl, x)) \div Pn(lvl, x)
+(* EXTENSION (channel 0, outside the listed properties): a package [m, ch = 0] carries f1000: measure m is f1000/1000 of a   *)
+(* 4-beat measure long (only that measure).  Without such packages every measure is 4 beats and the formulas are exact.     *)
+SigPkgs(lvl) == { P \in DOMAIN lvl : lvl[P].ch = 0 /\ lvl[P].evs # <<>> }
+MLen(lvl, m) == LET S == { P \in SigPkgs(lvl) : lvl[P].m = m } IN
+                IF S = {} THEN 19200 ELSE (19200 * lvl[CHOOSE P \in S : TRUE].evs[1].f1000) \div 1000
+RECURSIVE MStart(_, _)
+MStart(lvl, m) == IF SigPkgs(lvl) = {} THEN 19200 * m ELSE IF m = 0 THEN 0 ELSE MStart(lvl, m - 1) + MLen(lvl, m - 1)
+P4800(lvl, x) == MStart(lvl, Pm(lvl, x)) + (MLen(lvl, Pm(lvl, x)) * Pi(lvl, x)) \div Pn(lvl, x)
 (* sorted by position with TLC!SortSeq (Java); ties keep package order *)
 SortTempo(lvl, S) ==
     LET keyed == { [p |-> P4800(lvl, x), bl |-> Ev(lvl, x).bl, x |-> x] : x \in S }
@@ -32,8 +39,10 @@ TempoList(f, lvl) ==
     LET ev == SortTempo(lvl, TempoEvents(lvl)) IN
     IF ev # <<>> /\ ev[1].p = 0 THEN ev ELSE << [p |-> 0, bl |-> f.bl0] >> \o ev
 
-EvTicks(f, lvl, x) == BeatToTicks(TempoList(f, lvl), 0, 4 * Pm(lvl, x) + (4 * Pi(lvl, x)) \div Pn(lvl, x),
-                                  (4 * Pi(lvl, x)) % Pn(lvl, x), Pn(lvl, x))
+EvTicks(f, lvl, x) ==
+    IF SigPkgs(lvl) = {}
+    THEN BeatToTicks(TempoList(f, lvl), 0, 4 * Pm(lvl, x) + (4 * Pi(lvl, x)) \div Pn(lvl, x), (4 * Pi(lvl, x)) % Pn(lvl, x), Pn(lvl, x))
+    ELSE LET p == P4800(lvl, x) IN BeatToTicks(TempoList(f, lvl), 0, p \div 4800, p % 4800, 4800)
 
 Col(lvl, c) == { x \in Evs(lvl) : lvl[x[1]].ch = c + 2 }
 RECURSIVE Ordered(_, _)
